@@ -39,9 +39,10 @@ func c17Alphabet() []explore.Event {
 func c17Families(d int, full bool) []explore.Family {
 	var out []explore.Family
 	type cfg struct{ mb, msg, uid uint32 }
-	cfgs := []cfg{{5, 3, 4}, {4, 2, 3}}
+	// each limit also alone (the others far away): a limit that sits one step behind another one is masked by it
+	cfgs := []cfg{{5, 3, 4}, {4, 2, 3}, {6, 3, 100}, {6, 100, 4}}
 	if full {
-		cfgs = []cfg{{5, 3, 4}, {4, 2, 3}, {5, 2, 4}, {4, 3, 3}, {6, 3, 100}, {100, 3, 4}}
+		cfgs = []cfg{{5, 3, 4}, {4, 2, 3}, {5, 2, 4}, {4, 3, 3}, {6, 3, 100}, {100, 3, 4}, {6, 100, 4}, {4, 100, 100}}
 	}
 	for _, c := range cfgs {
 		out = append(out, explore.Family{Name: fmt.Sprintf("limits[mb=%d,msg=%d,uid=%d]", c.mb, c.msg, c.uid), Scenario: "c17", Depth: d,
